@@ -91,8 +91,10 @@ func initsFor(tier string, primary bool, pl string) []int {
 		return []int{0, 2}
 	case pl == "L4cccc":
 		return []int{0, 2}
-	case pl == "L3ffc" || (pl == "L3fcc" && !primary):
+	case pl == "L3ffc":
 		return []int{0, 2, 3, 5}
+	case pl == "L3fcc" && !primary:
+		return []int{0, 2}
 	case primary:
 		return []int{0, 1, 2, 3, 4, 5, 6}
 	}
